@@ -21,7 +21,7 @@
 from dali.exceptions import DALISequenceError, ProgramShortAddressFailure
 
 from dali.gear.general import *
-from dali.address import Broadcast, Short
+from dali.address import Broadcast, Group, Short
 
 
 class sleep:
@@ -126,7 +126,14 @@ def SetGroups(addr, groups):
             yield RemoveFromGroup(addr, i)
     else:
         # Can't read from multiple devices: must write every group
-        for i in range(0, 16):
+        order = list(range(0, 16))
+        if isinstance(addr, Group):
+            # Removing the gear from the group it is being addressed
+            # through must come last, or the remaining commands would
+            # no longer reach it
+            order.remove(addr.group)
+            order.append(addr.group)
+        for i in order:
             if i in groups:
                 yield AddToGroup(addr, i)
             else:
